@@ -8,6 +8,12 @@ CHECKS = {
  "C02": dict(level="exploration", technique="property-based testing (proptest): metamorphic oracle f(f(x)) == f(x) on grammar-generated documents",
    text="Generated search with a purely metamorphic oracle (second formatting pass returns the first byte-for-byte; third pass checked to tell convergence from oscillation) through three doors and both extension settings.",
    note="No parser in the verdict; the scanner only classifies failures. Same known-finding policy as C01.", ref="7/C02"),
+ "C05": dict(level="exploration", technique="property-based testing (proptest): generated libraries over directory layouts, reference model of backlinks from an independent scan and own path algebra, set equality both directions",
+   text="Generated libraries (1-6 notes, root and nested directories, every link spelling and position); the expected backlink sets (note, line of linking block) come from an independent scan; compared as sets with the block and inline reference queries.",
+   note="Trusted: pulldown-cmark, the harness's 15-line path algebra. LF only (C13 owns CRLF).", ref="7/C05"),
+ "C06": dict(level="exploration", technique="property-based testing (proptest): generated libraries, per-link oracle (kind, resolved destination, extension, expected text from a title model) plus library-level fixpoint",
+   text="Links of input and exported output are aligned per note; each must keep kind and resolved target, carry the configured extension, and show the title of the note it resolves to exactly when the property says so; the exported library must be a fixpoint.",
+   note="Title model = plain text of the first heading per independent scan.", ref="7/C06"),
  "C07": dict(level="exploration", technique="property-based testing (proptest): heading/list-biased generated documents, outline oracle over an independent scan with the quantifier's restructurings applied to the expected side",
    text="Generated search over documents biased to heading level sequences and nested mixed lists (including items that start with a heading or a list and empty items); oracle: block tree equality modulo the three allowed restructurings plus per-scope heading-level rule (well-nested reproduced, otherwise re-nested).",
    note="Trusted: pulldown-cmark for the input outline; restructuring rules implemented from the property's quantifier.", ref="7/C07"),
